@@ -93,7 +93,7 @@ func checkGuards(c *Ctx, p *Prog, rule string, guards []*Guard) {
 
 func runC01(c *Ctx) {
 	p := c.Progs["mod"]
-	c.Rule("C01.Y", "compatibility with the party that is not changed with this code: stored and cached responses written by the deployed build are still recognised as responses", 2)
+	c.Rule("C01.Y", "compatibility with the party that is not changed with this code: stored and cached responses written by the deployed build are still recognised as responses", 1)
 	ruleNewWireFieldNotDecisive(c, p, "C01.Y", "a response stored or cached by an instance of the deployed build (the agent service is deployed separately) carries the zero value there: the waiting client is not handed the response the backend produced for it", "app/types.Response", "app/store.storedResponse")
 
 	// ---- C01.L
